@@ -24,5 +24,30 @@ def main():
     ch = dispatch.find_chain(fn, dispatch.subject_name('x'))
     need(len(ch) == 1 and len(ch[0]) == 3, 'dispatch fixture')
     need(len(paths.func_paths(fn)) == 3, 'path fixture')
+    # front-end fixtures (sa/canon.py): equivalent spellings meet in one canonical form; a non-equivalent one does not
+    from . import canon, neutral, owner  # noqa
+
+    def canon_of(text):
+        t = ast.parse(text)
+        canon.normalise(t)
+        return ast.unparse(t)
+    a = "def f(self, n):\n    if not n > 3:\n        r = n + 1\n    else:\n        r = 0\n    i = 0\n    i = i + 2\n    out = r * i\n    return out\n"
+    b = "def f(self, n):\n    if 3 < n:\n        r = 0\n    else:\n        r = n + 1\n    i = 0\n    i += 2\n    return r * i\n"
+    c = "def f(self, n):\n    if 3 <= n:\n        r = 0\n    else:\n        r = n + 1\n    i = 0\n    i += 2\n    return r * i\n"
+    need(canon_of(a) == canon_of(b), 'idiom normalisation: equivalent spellings meet')
+    need(canon_of(a) != canon_of(c), 'idiom normalisation: a changed bound does not')
+    need(expr.CP('[x != 0]', True) == ('[x == 0]', False) and expr.CP(expr.spec_cond('a <= b'), True) == (expr.spec_cond('b < a'), False) and
+         not (expr.CP('[x != 0]', True) == ('[x == 0]', True)), 'condition pairs fold polarity')
+    need(expr.Facts([('[x == 0]', False)]).get('[x != 0]') is True, 'path facts answer both spellings')
+    need(('if 2 < len(y):' in canon.Code(canon_of('def g(y):\n    if len(y) > 2:\n        return 1\n'))) and
+         ('len(y) > 2' in canon.Code(canon_of('def g(y):\n    if len(y) > 2:\n        return 1\n'))), 'code needles are normalised like the tree')
+    t1 = ast.parse("class K:\n    def m(self, a):\n        total = a + 1\n        for item in range(total):\n            total += item\n        return total\n")
+    t2 = ast.parse("class K:\n    def m(self, a):\n        acc = a + 1\n        for x in range(acc):\n            acc += x\n        return acc\n")
+    ref = {'K.m': [[n, sg] for n, sg in canon.signatures(t1.body[0].body[0])]}
+    canon._ref_cache = dict(canon.reference(), **{'<fixture>': ref})
+    canon.canonicalise('<fixture>', t2)
+    need(ast.unparse(t2) == ast.unparse(t1), 'alpha-renaming: locals aligned with the reference by binding signature')
+    need(len(canon.reference()) >= 35, 'spec/locals.json present: %d modules' % len(canon.reference()))
+    need(len(neutral.KINDS) >= 9, 'neutral variant kinds: %d' % len(neutral.KINDS))
     print('SELF-CHECK ' + ('OK' if ok else 'FAILED'))
     return 0 if ok else 2
